@@ -32,6 +32,8 @@ theorem Inv.init : Inv State.init := by
   case listOk => intro f; simp [State.init, Chain, MemOk]
   case scanOk => intro a f hd tail cur took pend skip l0 h; rw [hpc] at h; cases h
   case prevOk => intro n h; simp [State.init] at h
+  case scanL0 => intro a f hd tail cur took pend skip l0 h; rw [hpc] at h; cases h
+  case unlockL0 => intro a f hd took skip l0 h; rw [hpc] at h; cases h
   all_goals simp [State.init, Pc.isWait, Pc.fresh, Pc.pre, Pc.post, Pc.locks, Pc.pend]
 
 /-- an actor inside `await_suspend` is a coroutine frame -/
